@@ -943,3 +943,25 @@ def rule_nodiff(ctx, prop):
                               f"that is not formatted", f.loc(s["sp"]), cfg)
         rep.floor("functions returning an optional diff", producers, 3, cfg)
     return rep
+
+
+def rule_ignore_arg(ctx, prop):
+    """sibling agreement: every question `is this path ignored?` is asked with the user's own
+    --search-parent-directories flag (file mode and stdin mode must search the same directories)"""
+    from paths import access_path, path_key
+    rep = Report(prop, "R-IGNOREARG", "every call of path_is_stylua_ignored passes opt.search_parent_directories itself "
+                                      "(no derived condition), in file mode and in stdin mode alike")
+    for cfg, prog in ctx.programs.items():
+        sites = list(call_sites(prog, r"(^|::)path_is_stylua_ignored$", "stylua"))
+        for f, b, t in sites:
+            k = path_key(access_path(f, t["args"][1]))
+            ok = k.endswith(".search_parent_directories") and not k.startswith("local:")
+            rep.inst(f"{f.key} path_is_stylua_ignored(.., {k.split('.', 1)[-1]})", {"at": f.loc(t["sp"])}, cfg, ok=ok)
+            if not ok:
+                rep.violation(f"{f.key} ignore-search-flag-derived arg={k.split(':')[0]}",
+                              f"{f.path} asks path_is_stylua_ignored with a search-parent-directories argument that is not "
+                              f"opt.search_parent_directories itself ({k}): `.styluaignore` files in parent directories are "
+                              f"consulted under different conditions than the option says (and than the sibling call site)",
+                              f.loc(t["sp"]), cfg)
+        rep.floor("call sites of path_is_stylua_ignored", len(sites), 2, cfg)
+    return rep
